@@ -157,7 +157,7 @@ def full_guard(lit, xfield, size_field, arrivals):
     return capacity_guard(ir.negate(lit), xfield, size_field, arrivals)
 
 
-def arrivals_counter(prog, cls, summary, path_list):
+def arrivals_counter(prog, cls, summary, path_list, other_writers=None):
     """A field initialised to 0, incremented by exactly 1 exactly once on every update path and written
     nowhere else in the class; returns its name or None. (Terms are values: `field + 1` denotes the number
     of arrivals including the current one wherever the increment statement sits.)"""
@@ -180,7 +180,10 @@ def arrivals_counter(prog, cls, summary, path_list):
                     continue
                 for n in ast.walk(fn):
                     if isinstance(n, ast.Attribute) and isinstance(n.ctx, ast.Store) and n.attr == f:
-                        ok = False
+                        if other_writers is not None:
+                            other_writers.append((c, name, fn))     # judged by the caller
+                        else:
+                            ok = False
         if ok:
             return f
     return None
